@@ -156,7 +156,7 @@ def summarize(res):
         ms = sum(o["ms"] for o in obs)
         lines.append(f"   {'OK ' if ok else 'FAIL'} {oid}  [{len(obs)} path(s), {ms} ms] {'' if ok else vs}")
         if not ok:
-            for o in obs:
+            for o in [o for o in obs if o["verdict"] != "unsat"][:3]:
                 if o["verdict"] != "unsat":
                     lines.append(f"        path {o['path']}: {o['verdict']} {o.get('detail','')} model={o.get('model')}")
     return lines
